@@ -217,6 +217,12 @@ fn call_body(sc: Sc) -> vsched::Body {
 }
 
 fn multi_body(behs: [Beh; 3], timeout: Option<u64>, exit_one: Option<Exit>) -> vsched::Body {
+    multi_body_x(behs, timeout, exit_one, [0, 1, 2])
+}
+
+/// `members[i]` = which of the three callees is listed at position i (a callee may be listed more than once:
+/// a list merged from two groups); request i carries id 7 + i
+fn multi_body_x(behs: [Beh; 3], timeout: Option<u64>, exit_one: Option<Exit>, members: [usize; 3]) -> vsched::Body {
     Arc::new(move || {
         Box::pin(async move {
             let log: L = Arc::new(Mutex::new(vec![]));
@@ -227,7 +233,7 @@ fn multi_body(behs: [Beh; 3], timeout: Option<u64>, exit_one: Option<Exit>) -> v
                 callees.push(c);
                 handles.push(h);
             }
-            let cs = callees.clone();
+            let cs: Vec<_> = members.iter().map(|m| callees[*m].clone()).collect();
             let k = Arc::new(Mutex::new(0usize));
             let k2 = k.clone();
             let caller = vsched::spawn("caller", async move {
@@ -237,8 +243,9 @@ fn multi_body(behs: [Beh; 3], timeout: Option<u64>, exit_one: Option<Exit>) -> v
                     move |reply| {
                         let mut g = k2.lock().unwrap();
                         let b = behs[*g];
+                        let id = 7 + *g as u32;
                         *g += 1;
-                        Msg::Req { id: 7, beh: b, reply }
+                        Msg::Req { id, beh: b, reply }
                     },
                     timeout.map(Duration::from_millis),
                 )
@@ -308,8 +315,8 @@ fn multi_body(behs: [Beh; 3], timeout: Option<u64>, exit_one: Option<Exit>) -> v
                     for (i, r) in v.iter().enumerate() {
                         match r {
                             CallResult::Success(x) => {
-                                if *x != value(i as u32 + 1, 7) {
-                                    bad.push(format!("result {i} is Success({x}): that is the reply of callee {}, not of callee {}", x / 1000, i + 1));
+                                if *x != value(members[i] as u32 + 1, 7 + i as u32) {
+                                    bad.push(format!("result {i} is Success({x}): that is the reply of callee {} to request {}, not of callee {} to request {}", x / 1000, x % 1000, members[i] + 1, 7 + i));
                                 }
                                 ks.push(format!("ok{x}"));
                             }
@@ -448,6 +455,14 @@ pub fn plan(tier: &str) -> Plan {
         ([Beh::ReplyAfterMs(3), Beh::ReplyAfterMs(1), Beh::ReplyAfterMs(2)], None, Some(Exit::Stop)),
     ] {
         units.push(Unit::explore(Job::new(format!("multi/{behs:?}/{timeout:?}/{exit:?}").replace(['(', ')', ' '], ""), cfg.clone(), Some(bound), multi_body(behs, timeout, exit))));
+    }
+    // a callee listed more than once (a member list merged from two groups): one result per position
+    for (behs, members) in [
+        ([Beh::ReplyNow, Beh::ReplyNow, Beh::ReplyNow], [0usize, 1, 0]),
+        ([Beh::ReplyFromTask, Beh::ReplyAfterMs(2), Beh::ReplyNow], [0, 0, 1]),
+        ([Beh::ReplyAfterMs(3), Beh::ReplyNow, Beh::ReplyFromTask], [2, 2, 2]),
+    ] {
+        units.push(Unit::explore(Job::new(format!("multi-repeated/{behs:?}/{members:?}").replace(['(', ')', ' '], ""), cfg.clone(), Some(bound), multi_body_x(behs, None, None, members))));
     }
     for (beh, timeout, exit) in [
         (Beh::ReplyNow, None, Exit::None),
